@@ -112,13 +112,14 @@ def opStr : Op → String
   | .addSub k => s!"addSub {k}"
   | .snap k => s!"snap {k}"
   | .diff k => s!"diff {k}"
+  | .probeStale k s c => s!"probeStale {k} {s} {c}"
 
 def resStr : Res → String
   | .ok => "ok" | .idx n => s!"idx:{n}" | .val v => s!"val:{v}" | .exc c => s!"EXC:{c}"
 
 /-- State objects named by the operation (printed in full) -/
 def touched (w : World) : Op → List Nat
-  | .on k _ | .clear k | .setNumSubs k _ | .addSub k | .snap k | .diff k => [k]
+  | .on k _ | .clear k | .setNumSubs k _ | .addSub k | .snap k | .diff k | .probeStale k _ _ => [k]
   | .copyNew k | .moveNew k => [k, w.sts.length]
   | .copyAssign s d | .moveAssign s d => [s, d]
 
@@ -349,6 +350,36 @@ def genSeq (out : IO.FS.Stream) (seed : Nat) (idx : Nat) (len : Nat) (full : Boo
     out.putStrLn ("O res " ++ resStr r)
     for l in obsLines w tch full do out.putStrLn l
 
+/-- The copy scenario behind finding `copy.stale_stamp.cache_valid`: a lazy cache entry (depends-on stage `dep`)
+is computed and marked `j+1` times in the source with the stage invalidated in between, the source is left
+just below `dep`, copied, and the copy is realized to `dep` and invalidated `m` times.  The entry is never
+marked in the copy, so it must not read valid there. -/
+def probeOps (dep j m : Nat) : List Op :=
+  let adv (k : Nat) (from_ to : Nat) : List Op :=
+    (List.range (to - from_)).flatMap (fun i => [.on k (.advSub 0 (from_ + i + 1)), .on k (.advSys (from_ + i + 1))])
+  let cyc (k : Nat) : List Op := [.on k (.invalAll dep)] ++ adv k (dep - 1) dep
+  [.on 0 (.allocCE 0 dep 10 5)] ++ adv 0 0 dep ++
+  (List.range j).flatMap (fun _ => [.on 0 (.mark 0 0)] ++ cyc 0) ++
+  [.on 0 (.mark 0 0), .on 0 (.invalAll dep), .copyNew 0] ++ adv 1 (min (dep - 1) 3) dep ++
+  (List.range m).flatMap (fun _ => cyc 1) ++ [.probeStale 1 0 0]
+
+def runOps (out : IO.FS.Stream) (ops : List Op) (full : Bool) : IO Bool := do
+  let mut w : World := { sts := [some { subs := List.replicate 1 {} }] }
+  out.putStrLn ("I reset 1" ++ (if full then " full" else ""))
+  out.putStrLn "O res ok"
+  for l in obsLines w [0] full do out.putStrLn l
+  for op in ops do
+    if !legal w op then
+      IO.eprintln s!"drv_C18: probe operation not legal: {opStr op}"
+      return false
+    let r := res w op
+    let tch := touched w op
+    w := step w op
+    out.putStrLn ("I " ++ opStr op)
+    out.putStrLn ("O res " ++ resStr r)
+    for l in obsLines w tch full do out.putStrLn l
+  return true
+
 def main (args : List String) : IO UInt32 := do
   let out ← IO.getStdout
   match args with
@@ -356,6 +387,18 @@ def main (args : List String) : IO UInt32 := do
     let seed := seedS.toNat!
     let n := nS.toNat!
     let full := rest.contains "full"
+    -- the copy scenarios first (a few parameter choices derived from the seed)
+    let mut g : SplitMix := ⟨UInt64.ofNat (seed * 77 + 5)⟩
+    for i in [0:6] do
+      let (d, g1) := g.below 8
+      let (j, g2) := g1.below 3
+      let (mm, g3) := g2.below 4
+      g := g3
+      let dep := if i == 0 then 5 else 2 + d
+      let jj := if i == 0 then 0 else j
+      let m := if i < 4 then jj else mm
+      let ok ← runOps out (probeOps dep jj m) full
+      if !ok then return 3
     for i in [0:n] do
       genSeq out seed i 70 full
     return 0
